@@ -6,7 +6,9 @@
 //!
 //! input = (trigger (h0 t0) clock0 (min_peers time_until_synced_ms) ops)
 //!   trigger = (0) Never | (1) Instant | (2 secs) Interval | (3 secs) Open
-//!   op  = (0 clock signer leader fail mid)  ensure_synced, then one iteration of MainTask::run; mid = () | (d t):
+//!   op  = (0 clock signer leader fail mid pd) ensure_synced, then one iteration of MainTask::run; pd = () | (delta):
+//!                                           a predefined block with time last_timestamp + delta is stored for the next
+//!                                           height; mid = () | (d t):
 //!                                           a block (last_height + d - 1, t) is imported by another path right
 //!                                           before the task reads the database height
 //!       | (1 clock signer start mode fail)  produce_manual_blocks      start = () | (t)   mode = (0 n) | (1)
@@ -16,17 +18,18 @@
 //!       | (5 n)                             reserved peers count
 //!       | (6 d t)                           block (last_height + d - 1, t) imported by another path
 //!   leader = (0) error | (1) follower | (2) leader | (3 ((off t ok) ..)) unreconciled blocks at asked height + off - 1
-//!   fail   = () | (idx stage)   the idx-th production of the op fails at stage 0 produce, 1 seal, 2 commit
+//!   fail   = () | (idx stage)   the idx-th production of the op fails at stage 0 produce, 1 seal, 2 commit,
+//!                               3 the producer exceeds production_timeout (20 s); 4 = no failure, the producer takes 1.5 s
 //! observation per op = (result state sync events)
 //!   result = () | (code) | (ensure_code state_after_ensure sync_then run_code) for op 0
 //!   state = (last_height last_timestamp last_block_created_ms now_ms db)    sync = () NotSynced | (h t)
-//!   event = (0 h) leader_state | (1 h time source deadline_ms at_ms) produce | (2 h) seal
+//!   event = (0 h) leader_state | (1 h time source deadline_ms at_ms) produce (source 2 = predefined block) | (2 h) seal
 //!         | (3 h time sealed) commit_result | (4 h time) execute_and_commit | (5) release
 //!         | (6 h time local at_ms) announced on the block stream | (7 h time at_ms) imported by another path
 use fuel_core_poa::{
     ports::{
-        BlockImporter, BlockProducer, BlockReconciliationReadPort, BlockSigner, GetTime, InMemoryPredefinedBlocks,
-        LeaderState, P2pPort, TransactionPool, TransactionsSource, WaitForReadySignal,
+        BlockImporter, BlockProducer, BlockReconciliationReadPort, BlockSigner, GetTime, LeaderState, P2pPort,
+        PredefinedBlocks, TransactionPool, TransactionsSource, WaitForReadySignal,
     },
     service::{MainTask, Mode},
     Config, Trigger,
@@ -44,7 +47,6 @@ use fuel_core_types::{
     tai64::Tai64,
 };
 use std::{
-    collections::HashMap,
     sync::{Arc, Mutex},
     time::Duration,
 };
@@ -64,6 +66,8 @@ struct Script {
     nh: u32,
     /// a block to import by another path at the next database height read
     mid: Option<(u32, u64)>,
+    /// time of the predefined block stored for the next height
+    predef: Option<u64>,
 }
 
 struct Sh {
@@ -134,12 +138,25 @@ impl BlockProducer for Producer {
             ms(self.0.base, deadline),
             ms(self.0.base, Instant::now()),
         ]));
-        let mut s = self.0.s.lock().unwrap();
-        let idx = s.prod_count;
-        s.prod_count += 1;
-        s.cur = idx;
-        if s.fail == Some((idx, 0)) {
-            anyhow::bail!("producer failure");
+        let stage = {
+            let mut s = self.0.s.lock().unwrap();
+            let idx = s.prod_count;
+            s.prod_count += 1;
+            s.cur = idx;
+            match s.fail {
+                Some((i, st)) if i == idx => Some(st),
+                _ => None,
+            }
+        };
+        match stage {
+            Some(0) => anyhow::bail!("producer failure"),
+            Some(3) => {
+                // longer than production_timeout: the caller gives up first
+                tokio::time::sleep(Duration::from_secs(25)).await;
+                anyhow::bail!("too late");
+            }
+            Some(4) => tokio::time::sleep(Duration::from_millis(1500)).await,
+            _ => {}
         }
         Ok(UncommittedExecutionResult::new(
             ExecutionResult {
@@ -152,8 +169,21 @@ impl BlockProducer for Producer {
         ))
     }
 
-    async fn produce_predefined_block(&self, _block: &Block) -> anyhow::Result<UncommittedExecutionResult<Changes>> {
-        anyhow::bail!("no predefined blocks in this harness")
+    async fn produce_predefined_block(&self, block: &Block) -> anyhow::Result<UncommittedExecutionResult<Changes>> {
+        let h: u32 = **block.header().height();
+        let t = block.header().time().0;
+        let now = ms(self.0.base, Instant::now());
+        self.0.log.lock().unwrap().push(T::l(vec![T::i(1), T::n(h), T::n(t), T::i(2), now.clone(), now]));
+        let mut s = self.0.s.lock().unwrap();
+        s.prod_count += 1;
+        s.cur = 0;
+        if s.fail == Some((0, 0)) {
+            anyhow::bail!("producer failure");
+        }
+        Ok(UncommittedExecutionResult::new(
+            ExecutionResult { block: block.clone(), skipped_transactions: vec![], tx_status: vec![], events: vec![] },
+            Changes::default(),
+        ))
     }
 }
 
@@ -265,6 +295,13 @@ impl BlockReconciliationReadPort for Recon {
     }
 }
 
+struct Predef(Arc<Sh>);
+impl PredefinedBlocks for Predef {
+    fn get_block(&self, height: &BlockHeight) -> anyhow::Result<Option<Block>> {
+        Ok(self.0.s.lock().unwrap().predef.map(|t| block_of(**height, t)))
+    }
+}
+
 struct Clock(Arc<Sh>);
 impl GetTime for Clock {
     fn now(&self) -> Tai64 {
@@ -365,7 +402,7 @@ fn run_inner(input: &T) -> T {
             Importer(sh.clone()),
             P2p(sh.clone()),
             Arc::new(Signer(sh.clone())),
-            InMemoryPredefinedBlocks::new(HashMap::new()),
+            Predef(sh.clone()),
             Clock(sh.clone()),
             Ready,
             Recon(sh.clone()),
@@ -410,6 +447,11 @@ fn run_inner(input: &T) -> T {
                     let ens_state = state_t(&task, &sh);
                     let ens_sync = sync_t(&task);
                     if ens_code == 0 {
+                        let pd = o[6].as_l();
+                        if !pd.is_empty() {
+                            let lt = task.verif_state().1 .0;
+                            sh.s.lock().unwrap().predef = Some(lt.saturating_add(pd[0].as_u64()));
+                        }
                         let m = o[5].as_l();
                         if !m.is_empty() {
                             let lh: u32 = *task.verif_state().0;
@@ -423,7 +465,11 @@ fn run_inner(input: &T) -> T {
                         Ok(TaskNextAction::Stop) => 2,
                         Err(_) => 3,
                     };
-                    sh.s.lock().unwrap().mid = None;
+                    {
+                        let mut s = sh.s.lock().unwrap();
+                        s.mid = None;
+                        s.predef = None;
+                    }
                     T::l(vec![T::i(ens_code), ens_state, ens_sync, T::l(vec![T::i(run_code)])])
                 }
                 1 => {
@@ -490,7 +536,7 @@ fn run_inner(input: &T) -> T {
 
 fn fail_t(rng: &mut Rng, max_idx: u64) -> T {
     if rng.chance(1, 5) {
-        T::l(vec![T::n(rng.below(max_idx)), T::n(rng.below(3))])
+        T::l(vec![T::n(rng.below(max_idx)), T::n(rng.below(5))])
     } else {
         T::l(vec![])
     }
@@ -512,10 +558,12 @@ pub fn gen(rng: &mut Rng, n: u64, tier: &str) -> Vec<T> {
         let mut clock = if big { t0 } else { t0.saturating_add(rng.below(8)) };
         // shadow of the heights / times in play, to generate mostly relevant values
                 let mut top_t = t0;
+        // time_until_synced values are chosen so that a sync timer tick never falls on an instant at which
+        // the main task wakes up (the order of two tasks woken at the same instant is the scheduler's choice)
         let (min_peers, tus): (u64, u64) = match rng.below(10) {
             0..=3 => (0, 0),
-            4..=6 => (0, *rng.pick(&[500u64, 1000, 2000, 3000])),
-            _ => (1 + rng.below(2), *rng.pick(&[0u64, 1000, 2000])),
+            4..=6 => (0, *rng.pick(&[700u64, 1300, 2300])),
+            _ => (1 + rng.below(2), *rng.pick(&[0u64, 700, 1300])),
         };
         let len = rng.range(1, max_len);
         let mut ops = vec![];
@@ -563,7 +611,8 @@ pub fn gen(rng: &mut Rng, n: u64, tier: &str) -> Vec<T> {
                     } else {
                         T::l(vec![])
                     };
-                    ops.push(T::l(vec![T::i(0), T::n(ck), T::b(!rng.chance(1, 12)), leader, fail_t(rng, 1), mid]));
+                    let pd = if !big && rng.chance(1, 8) { T::l(vec![T::n(rng.below(4))]) } else { T::l(vec![]) };
+                    ops.push(T::l(vec![T::i(0), T::n(ck), T::b(!rng.chance(1, 12)), leader, fail_t(rng, 1), mid, pd]));
                 }
                 5..=6 => {
                     let start = if rng.chance(1, 2) {
